@@ -290,7 +290,7 @@ def build_unit(u, scr, workdir, tier, trace=False, common_replace=()):
         r.checks.append(item)
         if item['file'].startswith(scr_root) and item['function'] and \
                 '/src/' in item['file']:
-            r.real_fns.add(item['function'])
+            r.real_fns.add(item['function'] + '@' + item['file'].split('/src/', 1)[1])
         if 'loop_invariant' in item['id'] or 'loop invariant' in desc \
                 or 'loop_step' in item['id']:
             r.loop_obls += 1
